@@ -42,7 +42,10 @@ type cCase struct {
 // cache-less image.
 type cRace struct {
 	Pkg  int    `json:"pkg"`
-	Kill string `json:"kill"` // pkg.begin | pkg.ctl | pkg.sig | pkg.dat | pkg.tar
+	Kill string `json:"kill"` // pkg.begin | pkg.ctl | pkg.sig | pkg.dat | pkg.tar ("" with PauseK: there is no build A)
+	// PauseK > 0: B is paused at its PauseK-th marker, whichever it is (any point of its own cache
+	// population: the two writers B and C interleave at that point), not at hit.probe of package Pkg
+	PauseK int `json:"pause_k,omitempty"`
 }
 
 type cacheSuite struct{}
@@ -132,6 +135,16 @@ func (cacheSuite) Gen(r *Rng, i int, tier string) any {
 		c.Race = &cRace{Pkg: r.Intn(cacheNPkg), Kill: Pick(r, []string{"pkg.begin", "pkg.ctl", "pkg.sig", "pkg.dat", "pkg.tar"})}
 		if r.Chance(70) {
 			c.Signed[c.Race.Pkg] = true
+		}
+		if r.Chance(45) {
+			// two concurrent writers: B stands still at an arbitrary marker while C populates the cache
+			c.Race.PauseK = r.Range(1, c.coldMarkers())
+			if tier == "thorough" {
+				c.Race.PauseK = 1 + (i % c.coldMarkers())
+			}
+			if r.Chance(60) {
+				c.Race.Kill = ""
+			}
 		}
 		return c
 	}
@@ -490,21 +503,36 @@ func (e *cacheEnv) signedAt(rev int) func(int) bool {
 func runRace(c *cCase, e *cacheEnv) []Step {
 	cache := filepath.Join(e.scratch, "cache")
 	j := c.Race.Pkg % cacheNPkg
-	kill := cacheMarkerAt(e.signedAt(0), j, c.Race.Kill)
-	a := e.child(childOpts{Cache: cache, Crash: kill})
 	tags := []string{"race", "race-kill:" + c.Race.Kill}
 	if e.signedAt(0)(j) {
 		tags = append(tags, "race-signed")
 	}
-	if a.Status != "crash" {
-		return failStep("race", "build A was not killed at marker "+fmt.Sprint(kill)+": "+a.Status)
+	kill := 0
+	if c.Race.Kill != "" {
+		kill = cacheMarkerAt(e.signedAt(0), j, c.Race.Kill)
+		a := e.child(childOpts{Cache: cache, Crash: kill})
+		if a.Status != "crash" {
+			return failStep("race", "build A was not killed at marker "+fmt.Sprint(kill)+": "+a.Status)
+		}
+	}
+	pause := fmt.Sprintf("hit.probe:%d", j+1)
+	if c.Race.PauseK > 0 {
+		pause = fmt.Sprintf(":%d", c.Race.PauseK)
 	}
 	e.nchild++
 	bid := e.nchild
-	waitB := startChild(e.scratch, bid, childOpts{World: e.world, Key: e.key, Cache: cache, Pause: fmt.Sprintf("hit.probe:%d", j+1)})
-	if cacheWaitPaused(e.scratch, bid) {
+	waitB := startChild(e.scratch, bid, childOpts{World: e.world, Key: e.key, Cache: cache, Pause: pause})
+	paused := cacheWaitPaused(e.scratch, bid)
+	switch {
+	case paused && c.Race.PauseK > 0:
+		tags = append(tags, "race-paused-at-marker")
+		if b, err := os.ReadFile(filepath.Join(e.scratch, fmt.Sprintf("trace-%d", bid))); err == nil {
+			tr := strings.Split(strings.TrimSpace(string(b)), "\n")
+			tags = append(tags, "race-paused-at:"+strings.SplitN(tr[len(tr)-1], " ", 2)[0])
+		}
+	case paused:
 		tags = append(tags, "race-paused-in-cachedPackage")
-	} else {
+	default:
 		tags = append(tags, "race-not-reached")
 	}
 	cres := e.child(childOpts{Cache: cache})
@@ -514,7 +542,7 @@ func runRace(c *cCase, e *cacheEnv) []Step {
 	state := abstractCache(cache, e.known)
 	return []Step{{Line: strings.Join([]string{"cache-race", "ok:img1", state, strings.Join(outs, ","), e.revsField()}, "\t"),
 		Go: "-", Mode: "verdict", NoImpl: true, Tags: tags,
-		Desc: fmt.Sprintf("A killed at %s of package %d (marker %d), B paused at its hit.probe #%d, C full, B released → C %s, B %s", c.Race.Kill, j, kill, j+1, outs[0], outs[1])}}
+		Desc: fmt.Sprintf("A killed at %q of package %d (marker %d), B paused at marker %s (reached: %v), C full, B released → C %s, B %s", c.Race.Kill, j, kill, pause, paused, outs[0], outs[1])}}
 }
 
 // runPlant: entries that the protocol never produces are planted into a fully populated cache; the
